@@ -279,9 +279,9 @@ def subchecks(tier, seed):
     U = universe(tier)
     if tier == "quick":
         return [
-            Sub("columns-2terms", drv, {"universe": U, "K": 2, "modes": ["terms"], "outputs": ["pandas", "sparse"],
+            Sub("columns-2terms", drv, {"universe": U, "K": 2, "modes": ["terms"], "outputs": ["pandas"],
                                         "frames": fr, "frame_names": ["cross6", "shuffled-index"]},
-                shard_depth=2, bounds={"max_terms": 2, "universe": len(U), "frames": ["cross6", "shuffled-index"], "outputs": ["pandas", "sparse"],
+                shard_depth=2, bounds={"max_terms": 2, "universe": len(U), "frames": ["cross6", "shuffled-index"], "outputs": ["pandas (sparse / numpy: sub-checks columns-two-parts, columns-2terms-numpy, columns-1term-allframes; thorough: all three)"],
                                        "construction": ["term list"]}),
             Sub("columns-2terms-numpy", drv, {"universe": U, "K": 2, "modes": ["string"], "outputs": ["numpy"], "frames": fr, "frame_names": ["cross6"]},
                 shard_depth=2, bounds={"max_terms": 2, "universe": len(U), "frames": ["cross6"], "outputs": ["numpy"], "construction": ["formula string"]}),
